@@ -375,11 +375,23 @@ def r4_last_match(rep, src):
     def matches_hook(it, args, kw):
         asked.append(args[1] if len(args) > 1 else None)
         return it.h.objs[args[0].name]['hit']
-    for truth in itertools.product((False, True), repeat=3):
-        heap = H.Heap(mod, hooks={'.matches': matches_hook})
+    def field_hook(it, args, kw):
+        o = it.h.objs[args[0].name]
+        if args[1] == 'Files' and 'text' in o:
+            return o['text']
+        raise H.Raised('KeyError', kw.get('lineno', 0))
+
+    # the paragraphs carry a Files text as well: all different, or two / three of them the same (the same text matches the same
+    # names, so the truth assignments are those that agree on equal texts) -- a lookup that goes through the texts must still
+    # answer in document order
+    TEXTS = [('*', 'src/*', 'debian/*'), ('*', 'src/*', '*'), ('*', '*', 'src/*'), ('src/*', '*', '*'), ('*', '*', '*')]
+    for texts, truth in itertools.product(TEXTS, itertools.product((False, True), repeat=3)):
+        if any(texts[i] == texts[j] and truth[i] != truth[j] for i in range(3) for j in range(3)):
+            continue
+        heap = H.Heap(mod, hooks={'.matches': matches_hook, '__getitem__': field_hook, '.get': lambda it_, a_, k_: field_hook(it_, a_[:2], k_)})
         heap.symbolic_strings = True
         hdr = heap.alloc('Header', {}, name='@header')
-        fps = [heap.alloc('FilesParagraph', {'hit': t}, name='@files%d' % (i + 1)) for i, t in enumerate(truth)]
+        fps = [heap.alloc('FilesParagraph', {'hit': t, 'text': x_, 'files': x_}, name='@files%d' % (i + 1)) for i, (t, x_) in enumerate(zip(truth, texts))]
         lic = heap.alloc('LicenseParagraph', {}, name='@license')
         paras = heap.new_list([fps[0], lic, fps[1], fps[2]])
         me = heap.alloc('Copyright', {'_Copyright__paragraphs': paras, '_Copyright__header': hdr}, name='@copyright')
@@ -394,7 +406,7 @@ def r4_last_match(rep, src):
                 want = p_
         n += 1
         if r != want and bad is None:
-            bad = 'with Files paragraphs matching = %s the answer is %r; the last matching paragraph in document order is %r' % (list(truth), r, want)
+            bad = 'with Files paragraphs %s matching = %s the answer is %r; the last matching paragraph in document order is %r' % (list(texts), list(truth), r, want)
     altered = [x for x in asked if not (isinstance(x, symstr.SStr) and x.same(NAME))]
     if not asked:
         raise AnalysisError('%s: matches() is never asked' % f.site)
@@ -406,7 +418,7 @@ def r4_last_match(rep, src):
     if bad:
         rep.fail('C16.R4', f.site, 'last match wins', bad, where=f.where)
     else:
-        rep.ok('C16.R4', f.site, 'last match wins', 'all %d truth assignments of three Files paragraphs (with a License paragraph in between)' % n)
+        rep.ok('C16.R4', f.site, 'last match wins', 'all %d truth assignments of three Files paragraphs (with a License paragraph in between; Files texts all different, two the same, all the same)' % n)
 
 
 def check(src, rep, tier):
